@@ -305,10 +305,14 @@ def run_case(c):
                 V.add(f'C10/{entry}/ungrouped/{key}', dict(where, got=got, want=ref[key], scale=ref[sk]))
             if ref[sk] > 0:
                 stats['worst_ref'] = max(stats['worst_ref'], d / ref[sk])
-        # (ii) rest state
+        # (ii) rest state.  Obliquity None: F^2 are exact constants and G^2(0) = 0 exactly -> exact zeros.  Obliquity 0.0 through
+        # the general inclination tables: entries that vanish at I = 0 are evaluated as trigonometric polynomials and may leave
+        # ~1e-33 residues, so "vanishes" is relative to the full-amplitude scale  (3/2) G M^2 R^5 / a^6 * n.
         if e == 0.0 and s_ == n_ and (ob if ob is not None else obl_val) == 0.0:
-            if not (H == 0.0 and dM == 0.0 and dw == 0.0 and dO == 0.0):
-                V.add(f'C10/{entry}/rest-state', dict(where, H=H, dUdM=dM, dUdw=dw, dUdO=dO))
+            sus = 1.5 * G * Mh ** 2 * R ** 5 / a_ ** 6
+            tolH, tolD = (0.0, 0.0) if not use_obl else (1e-12 * sus * abs(n_), 1e-12 * sus / Mh)
+            if not (abs(H) <= tolH and abs(dM) <= tolD and abs(dw) <= tolD and abs(dO) <= tolD):
+                V.add(f'C10/{entry}/rest-state', dict(where, H=H, dUdM=dM, dUdw=dw, dUdO=dO, allowed_H=tolH, allowed_dU=tolD))
         # (iii) classical limit
         if s_ == n_ and N == 2 and lmax == 2 and (ob if ob is not None else obl_val) == 0.0:
             base = 10.5 * G * Mh ** 2 * R ** 5 * n_ * e * e / a_ ** 6
@@ -319,7 +323,8 @@ def run_case(c):
                 V.add(f'C10/{entry}/classical-limit', dict(where, got=H, want=want, neg_imk2=k2))
             if want != 0:
                 stats['worst_classical'] = max(stats['worst_classical'], d / abs(want))
-            if form in ('scalar', 'spin-none'):       # n is the only forcing frequency kept -> the returned average is -Im k2(n)
+            if form in ('scalar', 'spin-none') and not use_obl:   # only then is n the single forcing frequency kept, so that the
+                # returned (frequency-averaged) negative_imk_by_orderl[2] is -Im k2(n)
                 k2r = float(res['negimk'][2])
                 want_r = base * k2r
                 if abs(H - want_r) > TOL * abs(want_r) or abs(k2r - k2) > TOL * abs(k2):
